@@ -216,7 +216,7 @@ HDR_BITS_RESP = 1 | 2 | 16 | 32
 
 def _outcome(txt):
     import re
-    m = re.search(r'outcome: (\w+)', txt) or re.match(r'\s*(?:Ok\()?(\w+)', txt)
+    m = re.search(r'outcome: (\w+)', txt) or re.search(r'\b(Complete|Partial|Err|Invalid)\b', txt) or re.match(r'\s*(?:Ok\()?(\w+)', txt)
     return m.group(1) if m else ''
 
 
@@ -225,6 +225,18 @@ def relevant(prop, f):
     ro, eo = _outcome(f.get('real', '')), _outcome(f.get('expected', ''))
     if f.get('family') == 'chunk' and f.get('oracle') == 'parse_chunk_size':
         f = dict(f, oracle='status')          # a chunk-size disagreement is a status/offset/value disagreement
+    if f.get('family') == 'headers' and f.get('oracle') == 'parse_headers':
+        # parse_headers findings carry no part list: derive it from the two outcomes
+        import re as _re
+        rk, ek = _re.search(r'(Complete|Partial|Err)', f.get('real', '')), _re.search(r'(Complete|Partial|Err)', f.get('expected', ''))
+        rk, ek = (rk.group(1) if rk else ''), (ek.group(1) if ek else '')
+        if rk == 'Err' and ek == 'Err':
+            f = dict(f, oracle='error-kind')
+        elif rk == 'Complete' and ek == 'Complete':
+            rn, en = _re.search(r'Complete\((\d+)', f.get('real', '')), _re.search(r'(\d+)\)\s*$', f.get('expected', ''))
+            f = dict(f, oracle='headers' if (rn and en and rn.group(1) == en.group(1)) else 'status+headers')
+        else:
+            f = dict(f, oracle='status')
     accepts_forbidden = ('status' in f.get('oracle', '').split('+')) and eo in ('Err', 'Invalid') and ro not in ('Err',)
     fam, stage, orc, cfg = f.get('family'), f.get('stage'), f.get('oracle', ''), f.get('cfg', 0)
     hdr_opts = cfg & (HDR_BITS_REQ if fam == 'request' else HDR_BITS_RESP if fam == 'response' else 0)
@@ -250,14 +262,16 @@ def relevant(prop, f):
     if prop == 'C10':
         return 'error-kind' in parts or 'TooManyHeaders' in f.get('real', '') + f.get('expected', '')
     if prop == 'C12':
-        return f.get('gen') in ('lane-sweep', 'long-sweep') or accepts_forbidden
+        return f.get('gen') in ('lane-sweep', 'long-sweep', 'stride-pairs') or accepts_forbidden
     if prop == 'C05':
         # a byte the grammar forbids was accepted (or not yet rejected), or a reported field differs
-        return accepts_forbidden or f.get('gen') in ('lane-sweep', 'long-sweep') or any(x in parts for x in ('method', 'path', 'reason', 'headers', 'code', 'version'))
+        return accepts_forbidden or f.get('gen') in ('lane-sweep', 'long-sweep', 'stride-pairs') or any(x in parts for x in ('method', 'path', 'reason', 'headers', 'code', 'version'))
     if prop == 'C17':
         return any(x in parts for x in ('headers-len-restore', 'untouched-slots')) or 'TooManyHeaders' in f.get('real', '') + f.get('expected', '') or f.get('gen') == 'capacity'
     if prop == 'C03':
         return 'status' in parts and ('Complete' in f.get('real', '') or 'Complete' in f.get('expected', ''))
+    if 'stability' in parts:
+        return prop == 'C02'
     if prop in ('C02', 'C11'):
         # a status disagreement where one side says Partial: Partial is returned although the oracle already decides, or vice versa
         return 'status' in parts and ((ro == 'Partial') != (eo == 'Partial'))
@@ -269,7 +283,7 @@ def relevant(prop, f):
         return True
     if prop == 'C13':
         # the result depends on the scanner back end the tree was built for, or comes from a block/phase sweep, or is the chunk-size profile branch
-        return bool(f.get('backend_dependent')) or fam == 'chunk' or f.get('gen') in ('lane-sweep', 'long-sweep')
+        return bool(f.get('backend_dependent')) or fam == 'chunk' or f.get('gen') in ('lane-sweep', 'long-sweep', 'stride-pairs')
     if prop == 'C18':
         return 'history' in parts or 'headers-len-restore' in parts
     if prop == 'C15':
